@@ -94,13 +94,13 @@ def type_members(l12=(), names=None):
             lower_all_of(sl, required="std::all_of" in sl.text)  # must fire whenever the construct is present
         if name == "type_t::is":
             sl.sub("L13:local-using-namespace", r"^\s*using namespace Constants;\n", "", required=True)
-            sl.sub("L15:const-auto->kind_t", r"const auto k = get_kind\(\);", "const kind_t k = get_kind();", required=True)
+            sl.sub("L15:const-auto->kind_t", r"const auto k = get_kind\(\);", "const kind_t k = get_kind();", required="const auto k" in sl.text)
         if name in ("type_t::get_sub()", "type_t::get_sub(i)", "type_t::get_array_size", "type_t::get_record_size", "type_t::strip"):
-            sl.sub("L15:const-auto->kind_t", r"const auto k = get_kind\(\);", "const kind_t k = get_kind();", required=True)
+            sl.sub("L15:const-auto->kind_t", r"const auto k = get_kind\(\);", "const kind_t k = get_kind();", required="const auto k" in sl.text)
         sl.sub("lower:make_shared->new", r"std::make_shared<type_data>\(", "new type_data(")
         sl.sub("L4:auto x = type_t{...}", r"auto (\w+) = type_t\{([^}]*)\};", r"type_t \1(\2);")
         short = name.split("::")[1].split("(")[0]
         if name in l12:
-            X.rename_self_calls(sl, short, pattern=r"\.%s\(" % re.escape(short), minimum=1)
+            X.rename_self_calls(sl, short, pattern=r"\.%s\(" % re.escape(short), minimum=0)
         out.append(sl)
     return out
